@@ -21,6 +21,7 @@
 #include <soundswallower/dict.h>
 #include <soundswallower/err.h>
 #include <soundswallower/fsg_model.h>
+#include <soundswallower/fsg_lextree.h>
 #include <soundswallower/fsg_search.h>
 #include <soundswallower/hmm.h>
 #include <soundswallower/s3file.h>
@@ -81,6 +82,56 @@ static void emit_ssid(bin_mdef_t *m, iset_t *ssids, int ci, int lc, int rc, int 
     iset_add(ssids, ssid);
 }
 
+/* the lextree the search really uses: every pnode (XN), the root chain of every state (XR), the child chain
+ * of every non-leaf node (XC).  Node ids are positions in the per-state allocation lists. */
+static fsg_link_t *links[MAXT];
+static int nlinks;
+#define MAXPN 65536
+static fsg_pnode_t *pn[MAXPN];
+static int npn;
+static int pn_id(fsg_pnode_t *p)
+{
+    int i;
+    for (i = 0; i < npn; i++) if (pn[i] == p) return i;
+    return -1;
+}
+static void dump_lextree(fsg_lextree_t *lt, fsg_model_t *fsg)
+{
+    int s, i, k;
+    fsg_pnode_t *p;
+    npn = 0;
+    for (s = 0; s < fsg_model_n_state(fsg); s++)
+        for (p = lt->alloc_head[s]; p && npn < MAXPN; p = p->alloc_next) pn[npn++] = p;
+    for (i = 0; i < npn; i++) {
+        int arc = -1, all = 1, first = 1, r, st = -1;
+        p = pn[i];
+        if (p->leaf) for (k = 0; k < nlinks; k++) if (links[k] == p->next.fsglink) arc = k;
+        for (k = 0; k < FSG_PNODE_CTXT_BVSZ; k++) if (p->ctxt.bv[k] != 0xffffffffu) all = 0;
+        printf("XN %d %d %d %d %d %d %d %d ", i, (int)hmm_nonmpx_ssid(&p->hmm), (int)p->hmm.tmatid, p->logs2prob,
+               (int)p->ci_ext, (int)p->ppos, (int)p->leaf, arc);
+        (void)st;
+        if (all) printf("ALL");
+        else {
+            for (r = 0; r < 32 * FSG_PNODE_CTXT_BVSZ; r++)
+                if (p->ctxt.bv[r >> 5] & (1u << (r & 31))) { printf("%s%d", first ? "" : ",", r); first = 0; }
+            if (first) printf("-");
+        }
+        printf("\n");
+    }
+    for (s = 0; s < fsg_model_n_state(fsg); s++) {
+        if (!fsg_lextree_root(lt, s)) continue;
+        printf("XR %d", s);
+        for (p = fsg_lextree_root(lt, s); p; p = p->sibling) printf(" %d", pn_id(p));
+        printf("\n");
+    }
+    for (i = 0; i < npn; i++) {
+        if (pn[i]->leaf) continue;
+        printf("XC %d", i);
+        for (p = pn[i]->next.succ; p; p = p->sibling) printf(" %d", pn_id(p));
+        printf("\n");
+    }
+}
+
 static void run_case(void)
 {
     char *buf;
@@ -124,13 +175,16 @@ static void run_case(void)
     printf("P wip %d pip %d beam %d pbeam %d wbeam %d compallsen %d\n", fsgs->wip, fsgs->pip, fsgs->beam_orig,
            fsgs->pbeam_orig, fsgs->wbeam_orig, (int)acmod->compallsen);
     printf("G %d %d %d\n", fsg_model_n_state(fsg), fsg_model_start_state(fsg), fsg_model_final_state(fsg));
+    nlinks = 0;
     for (i = 0; i < fsg_model_n_state(fsg); i++) {
         fsg_arciter_t *it;
         for (it = fsg_model_arcs(fsg, i); it; it = fsg_arciter_next(it)) {
             fsg_link_t *l = fsg_arciter_get(it);
             printf("A %d %d %d %d\n", l->from_state, l->to_state, l->logs2prob, l->wid);
+            if (nlinks < MAXT) links[nlinks++] = l;
         }
     }
+    dump_lextree(fsgs->lextree, fsg);
     /* words, candidate context phones */
     iset_init(&ctx, nci); iset_init(&cis, nci);
     iset_init(&ssids, bin_mdef_n_sseq(m)); iset_init(&sens, bin_mdef_n_sen(m)); iset_init(&tmats, acmod->tmat->n_tmat);
